@@ -533,6 +533,16 @@ def mon_C11(s):
             if x == "AttributeError" and op["op"] == "rerun":
                 fin = "D14"
             out.append(V("%s escaped %s" % (x, op["op"]), i, fin))
+        # a staged task that is ready is either offered or its rendering failed, and then the
+        # workflow fails: a call that does neither has swallowed the failure
+        if op["op"] == "next" and isinstance(r.get("res"), list) and prev is not None and st is not None \
+                and prev["status"] in ("running", "resuming") and st["status"] in ("running", "resuming"):
+            got = set((o["id"], o["route"]) for o in r["res"])
+            for sx in prev["staged"]:
+                if sx["ready"] and sx.get("items") is None and not sx.get("completed") and sx["id"] not in CMDS \
+                        and (sx["id"], sx["route"]) not in got:
+                    out.append(V("ready staged task %s is neither offered nor does the workflow fail" % sx["id"], i, region_of(s, i)))
+                    break
         if st is not None and prev is not None:
             new = [e for e in st["errors"] if e not in prev["errors"] and e[0] == "ExpressionEvaluationException"]
             if new and st["status"] not in ("failed", "canceled", "canceling"):
